@@ -6,7 +6,7 @@ import z3
 
 from pyvc.kinds import V, INT, REAL, BOOL, is_list
 from pyvc.engine_call import specfunc
-from pyvc.state import Unsupported, I
+from pyvc.state import Unsupported, I, fresh
 from pyvc import ops
 
 
@@ -100,10 +100,28 @@ def _pure(name, *sorts):
     return z3.Function("pure_" + name, *sorts)
 
 
+def _typeform_axioms(ex):
+    """Shape facts of `typing` objects as seen through grammar/utils.py (assumed; listed in the trusted base):
+    tuple[...] and list[...] are generics, a list is not a tuple, neither is Annotated or a Union, a Union is not
+    Annotated, is_metahandler is is_annotated."""
+    if ("axiom", "typeforms") in ex.__dict__.setdefault("_axiom_keys", set()):
+        return
+    ex._axiom_keys.add(("axiom", "typeforms"))
+    T, B = _T().sort(), z3.BoolSort()
+    ann, lst, tup, uni, gen, mh = (_pure(n, T, B) for n in ("is_annotated", "is_generic_list", "is_generic_tuple", "is_union", "is_generic", "is_metahandler"))
+    ty = z3.Const("tf_ty", T)
+    ex.axioms.append(z3.ForAll([ty], z3.Implies(tup(ty), z3.And(gen(ty), z3.Not(lst(ty)), z3.Not(ann(ty)), z3.Not(uni(ty)))), patterns=[tup(ty)]))
+    ex.axioms.append(z3.ForAll([ty], z3.Implies(lst(ty), z3.And(gen(ty), z3.Not(tup(ty)), z3.Not(ann(ty)), z3.Not(uni(ty)))), patterns=[lst(ty)]))
+    ex.axioms.append(z3.ForAll([ty], z3.Implies(uni(ty), z3.Not(ann(ty))), patterns=[uni(ty)]))
+    ex.axioms.append(z3.ForAll([ty], mh(ty) == ann(ty), patterns=[mh(ty)]))
+    ex.note_assumption("type-form axioms: tuple/list are generics and mutually exclusive with Annotated/Union; is_metahandler == is_annotated (shape of typing objects, assumed)")
+
+
 def _gdist_fn(ex, st):
     T = _T().sort()
     B = z3.BoolSort()
     f = z3.Function("gdist", I, T, I)
+    _typeform_axioms(ex)
     if ("axiom", "gdist") in ex.__dict__.setdefault("_axiom_keys", set()):
         return f
     ex._axiom_keys.add(("axiom", "gdist"))
@@ -126,18 +144,27 @@ def _gdist_fn(ex, st):
     at = lambda t, kk: E0[P(t)][kk]
     is_leaf = z3.And(z3.Not(ann(ty)), z3.Not(lst(ty)), z3.Not(uni(ty)), z3.Not(gen(ty)))
     ax = ex.axioms
-    ax.append(z3.ForAll([g, ty], z3.Implies(ann(ty), f(g, ty) == f(g, at(ty, 0))), patterns=[f(g, ty)]))
-    ax.append(z3.ForAll([g, ty], z3.Implies(z3.And(z3.Not(ann(ty)), lst(ty)), f(g, ty) == ed(g) + f(g, at(ty, 0))), patterns=[f(g, ty)]))
+    # every unfolding equation is triggered by the marker gd_unfold(ty), which the gdist() spec function emits for the
+    # types a clause mentions: unguarded, f(g, ty) -> f(g, parameter(ty)) -> ... is a matching loop
+    trig_f = z3.Function("gd_unfold", T, B)
+    tr_ty = trig_f(ty)  # kept referenced: z3py's MultiPattern drops its argument tuple before the API call
+    ex._pinned = getattr(ex, "_pinned", []) + [tr_ty]
+    trig = lambda _t: tr_ty
+    fg = f(g, ty)
+    P1 = lambda: [z3.MultiPattern(fg, tr_ty)]
+    ax.append(z3.ForAll([g, ty], z3.Implies(ann(ty), f(g, ty) == f(g, at(ty, 0))), patterns=P1()))
+    ax.append(z3.ForAll([g, ty], z3.Implies(z3.And(z3.Not(ann(ty)), lst(ty)), f(g, ty) == ed(g) + f(g, at(ty, 0))), patterns=P1()))
     # union: ed + the minimum over the alternatives (bounds every alternative, attained by one)
     wmin = z3.Function("gdist_argmin", I, T, I)
     wmax = z3.Function("gdist_argmax", I, T, I)
     isu = z3.And(z3.Not(ann(ty)), z3.Not(lst(ty)), uni(ty))
-    ax.append(z3.ForAll([g, ty, k], z3.Implies(z3.And(isu, 0 <= k, k < n_of(ty)), f(g, ty) <= ed(g) + f(g, at(ty, k))), patterns=[z3.MultiPattern(f(g, ty), at(ty, k))]))
-    ax.append(z3.ForAll([g, ty], z3.Implies(isu, z3.And(0 <= wmin(g, ty), wmin(g, ty) < n_of(ty), f(g, ty) == ed(g) + f(g, at(ty, wmin(g, ty))))), patterns=[f(g, ty)]))
+    atk = at(ty, k)
+    ax.append(z3.ForAll([g, ty, k], z3.Implies(z3.And(isu, 0 <= k, k < n_of(ty)), f(g, ty) <= ed(g) + f(g, at(ty, k))), patterns=[z3.MultiPattern(fg, tr_ty, atk)]))
+    ax.append(z3.ForAll([g, ty], z3.Implies(isu, z3.And(0 <= wmin(g, ty), wmin(g, ty) < n_of(ty), f(g, ty) == ed(g) + f(g, at(ty, wmin(g, ty))))), patterns=P1()))
     isg = z3.And(z3.Not(ann(ty)), z3.Not(lst(ty)), z3.Not(uni(ty)), gen(ty))
-    ax.append(z3.ForAll([g, ty, k], z3.Implies(z3.And(isg, 0 <= k, k < n_of(ty)), f(g, ty) >= ed(g) + f(g, at(ty, k))), patterns=[z3.MultiPattern(f(g, ty), at(ty, k))]))
-    ax.append(z3.ForAll([g, ty], z3.Implies(isg, z3.And(0 <= wmax(g, ty), wmax(g, ty) < n_of(ty), f(g, ty) == ed(g) + f(g, at(ty, wmax(g, ty))))), patterns=[f(g, ty)]))
-    ax.append(z3.ForAll([g, ty], z3.Implies(is_leaf, f(g, ty) == tbl(g, ty)), patterns=[f(g, ty)]))
+    ax.append(z3.ForAll([g, ty, k], z3.Implies(z3.And(isg, 0 <= k, k < n_of(ty)), f(g, ty) >= ed(g) + f(g, at(ty, k))), patterns=[z3.MultiPattern(fg, tr_ty, atk)]))
+    ax.append(z3.ForAll([g, ty], z3.Implies(isg, z3.And(0 <= wmax(g, ty), wmax(g, ty) < n_of(ty), f(g, ty) == ed(g) + f(g, at(ty, wmax(g, ty))))), patterns=P1()))
+    ax.append(z3.ForAll([g, ty], z3.Implies(is_leaf, f(g, ty) == tbl(g, ty)), patterns=P1()))
     return f
 
 
@@ -146,6 +173,8 @@ def gdist(ex, st, g, ty):
     """minimum depth of a program derivable from `ty` in grammar g, as the equations of the property define it"""
     f = _gdist_fn(ex, st)
     t = ex.as_type(ty) or ty
+    trig = z3.Function("gd_unfold", _T().sort(), z3.BoolSort())
+    ex.add_fact(st, trig(t.term))
     return V(INT, f(g.term, t.term))
 
 
@@ -176,3 +205,230 @@ def gdist_defined(ex, st, g, ty):
         ex.axioms.append(z3.ForAll([gg, ty_], z3.Implies(z3.And(d(gg, ty_), z3.Not(wrapper)), dom), patterns=[d(gg, ty_)]))
     t = ex.as_type(ty) or ty
     return V(BOOL, d(g.term, t.term))
+
+
+# ---- program values (opaque sort Val): well-typedness and depth, introduced by the value constructors ------------
+def _VAL():
+    from pyvc.kinds import Opaque
+
+    return Opaque("Val")
+
+
+def _wt_fn():
+    return z3.Function("welltyped", _VAL().sort(), _T().sort(), I, z3.BoolSort())
+
+
+def _vd_fn():
+    return z3.Function("vdepth", _VAL().sort(), I)
+
+
+def _value_axioms(ex, st):
+    """The C01 / C03 definitions that do not depend on a particular constructor call (clause by clause from the
+    property statement): base values have depth 0 and exactly their own type; a value of a production is a value
+    of the abstract type that lists it; a value of a union alternative is a value of the union."""
+    if ("axiom", "values") in ex.__dict__.setdefault("_axiom_keys", set()):
+        return
+    ex._axiom_keys.add(("axiom", "values"))
+    VAL, T, B = _VAL().sort(), _T().sort(), z3.BoolSort()
+    wt, vd = _wt_fn(), _vd_fn()
+    bi = z3.Function("box_int", I, VAL)
+    bf = z3.Function("box_float", z3.RealSort(), VAL)
+    bb = z3.Function("box_bool", B, VAL)
+    i, r, b, g = z3.Int("va_i"), z3.Real("va_r"), z3.Bool("va_b"), z3.Int("va_g")
+    v = z3.Const("va_v", VAL)
+    ty = z3.Const("va_ty", T)
+    k = z3.Int("va_k")
+    tint = ex.as_type(V(FN, _fr("builtin", "int"))).term
+    tfloat = ex.as_type(V(FN, _fr("builtin", "float"))).term
+    tbool = ex.as_type(V(FN, _fr("builtin", "bool"))).term
+    ax = ex.axioms
+    ax.append(z3.ForAll([i, g], z3.And(wt(bi(i), tint, g), vd(bi(i)) == 0), patterns=[wt(bi(i), tint, g)]))
+    ax.append(z3.ForAll([i], vd(bi(i)) == 0, patterns=[vd(bi(i))]))
+    ax.append(z3.ForAll([r, g], wt(bf(r), tfloat, g), patterns=[wt(bf(r), tfloat, g)]))
+    ax.append(z3.ForAll([r], vd(bf(r)) == 0, patterns=[vd(bf(r))]))
+    ax.append(z3.ForAll([b, g], wt(bb(b), tbool, g), patterns=[wt(bb(b), tbool, g)]))
+    ax.append(z3.ForAll([b], vd(bb(b)) == 0, patterns=[vd(bb(b))]))
+    # exactness of base types: a bool is not an int value, an int is not a bool / float value
+    ax.append(z3.ForAll([b, g], z3.And(z3.Not(wt(bb(b), tint, g)), z3.Not(wt(bb(b), tfloat, g))), patterns=[wt(bb(b), tint, g)]))
+    ax.append(z3.ForAll([i, g], z3.And(z3.Not(wt(bi(i), tbool, g)), z3.Not(wt(bi(i), tfloat, g))), patterns=[wt(bi(i), tbool, g)]))
+    ax.append(z3.ForAll([v], vd(v) >= 0, patterns=[vd(v)]))
+    # subsumption: productions under their abstract type, alternatives under their union
+    H0 = ex.H.base
+    ex.H.fld_arr(st, "alternatives", I), ex.H.map_arr(st, T, I), ex.H.dom_arr(st, T), ex.H.len_arr(st), ex.H.el_arr(st, T)
+    alts = lambda gg, a: H0[ex.H.n_map(T, I)][H0[ex.H.n_fld("alternatives", I)][gg]][a]
+    has = lambda gg, a: H0[ex.H.n_dom(T)][H0[ex.H.n_fld("alternatives", I)][gg]][a]
+    L0, E0 = H0["len"], H0[ex.H.n_el(T)]
+    ax.append(z3.ForAll([v, ty, g, k], z3.Implies(z3.And(has(g, ty), 0 <= k, k < L0[alts(g, ty)], wt(v, E0[alts(g, ty)][k], g)), wt(v, ty, g)),
+                        patterns=[z3.MultiPattern(wt(v, E0[alts(g, ty)][k], g), has(g, ty))]))
+    annp = _pure("is_annotated", T, B)
+    md0 = z3.Function("pure_type_metadata0", T, I)
+    rf = z3.Function("refinedby", I, VAL, B)
+    params_ = _pure("get_generic_parameters", T, I)
+    ax.append(z3.ForAll([v, ty, g], z3.Implies(z3.And(annp(ty), wt(v, E0[params_(ty)][0], g), rf(md0(ty), v)), wt(v, ty, g)),
+                        patterns=[z3.MultiPattern(wt(v, E0[params_(ty)][0], g), annp(ty))]))
+    uni = _pure("is_union", T, B)
+    params = _pure("get_generic_parameters", T, I)
+    ax.append(z3.ForAll([v, ty, g, k], z3.Implies(z3.And(uni(ty), 0 <= k, k < L0[params(ty)], wt(v, E0[params(ty)][k], g)), wt(v, ty, g)),
+                        patterns=[z3.MultiPattern(wt(v, E0[params(ty)][k], g), uni(ty))]))
+
+
+def _fr(tag, name):
+    from pyvc.engine_expr import FuncRef
+
+    return FuncRef(tag, name=name)
+
+
+from pyvc.kinds import FN  # noqa: E402
+
+
+def _box_tuple_facts(ex, st, v, bx):
+    """Definition of well-typedness and depth for a real tuple (an immutable sequence cell), stated where the tuple
+    becomes a program value: C01 'a real tuple for a tuple type' -- as many components as the type has parameters,
+    each well-typed for its parameter; C03 'containers are transparent' -- depth = deepest component (0 if empty)."""
+    from pyvc.kinds import Opaque
+
+    if not (isinstance(v.kind.target.elem, Opaque) and v.kind.target.elem.sname == "Val"):
+        return
+    ex._pinned = getattr(ex, "_pinned", []) + [v.term]
+    _value_axioms(ex, st)
+    T, B = _T().sort(), z3.BoolSort()
+    wt, vd = _wt_fn(), _vd_fn()
+    n = ex.llen(st, v)
+    arr = ex.larr(st, v)
+    at = lambda kk: ex.sel(st, arr, kk)
+    k = z3.Int("bt_k")
+    ty, g = z3.Const("bt_ty", T), z3.Int("bt_g")
+    w = fresh("bt_w", I)
+    b = bx.term
+    H0 = ex.H.base
+    ex.H.len_arr(st), ex.H.el_arr(st, T)
+    L0, E0 = H0["len"], H0[ex.H.n_el(T)]
+    params = _pure("get_generic_parameters", T, I)
+    tup = _pure("is_generic_tuple", T, B)
+    facts = [
+        ex.forall_p([k], z3.Implies(z3.And(0 <= k, k < n), vd(at(k)) <= vd(b)), [vd(at(k))]),
+        z3.Implies(n == 0, vd(b) == 0),
+        z3.Implies(n >= 1, z3.And(0 <= w, w < n, vd(b) == vd(at(w)))),
+        z3.ForAll([ty, g], z3.Implies(z3.And(tup(ty), n == L0[params(ty)],
+                                             z3.ForAll([k], z3.Implies(z3.And(0 <= k, k < n), wt(at(k), E0[params(ty)][k], g)))), wt(b, ty, g)),
+                  patterns=[wt(b, ty, g)]),
+    ]
+    for f_ in facts:
+        ex.add_fact(st, f_)
+
+
+try:
+    from pyvc.spec import REG as _REG
+
+    _REG.hooks["box_tuple"] = _box_tuple_facts
+except Exception:  # pragma: no cover
+    pass
+
+
+THE_GRAMMAR = z3.Int("THE_GRAMMAR")
+
+
+@specfunc("thegrammar")
+def thegrammar(ex, st):
+    """the grammar the unit works with (well-typedness is relative to it)"""
+    from pyvc.kinds import parse_kind
+
+    return V(parse_kind("Grammar", ex.reg.opaque), THE_GRAMMAR)
+
+
+@specfunc("welltyped")
+def welltyped(ex, st, v, ty, g=None):
+    """C01: v is a value of type ty in grammar g (introduced by the value constructors' contracts and the
+    subsumption axioms; never assumed for anything the code did not build through them)"""
+    _value_axioms(ex, st)
+    vv = v if (hasattr(v.kind, "sname") and v.kind.sname == "Val") else ex.box_val(v, st)
+    t = ex.as_type(ty) or ty
+    return V(BOOL, _wt_fn()(vv.term, t.term, g.term if g is not None else THE_GRAMMAR))
+
+
+@specfunc("refinedby")
+def refinedby(ex, st, mh, v):
+    """C02: v satisfies the documented predicate of the refinement object mh (uninterpreted here; each built-in
+    handler's generate is verified against its documented predicate in specs/metahandlers.py)"""
+    _value_axioms(ex, st)
+    vv = v if (hasattr(v.kind, "sname") and v.kind.sname == "Val") else ex.box_val(v, st)
+    return V(BOOL, z3.Function("refinedby", I, _VAL().sort(), z3.BoolSort())(mh.term, vv.term))
+
+
+@specfunc("vdepth")
+def vdepth(ex, st, v):
+    """C03: depth of a program value -- longest chain of nested grammar nodes (base values 0, containers transparent)"""
+    _value_axioms(ex, st)
+    vv = v if (hasattr(v.kind, "sname") and v.kind.sname == "Val") else ex.box_val(v, st)
+    return V(INT, _vd_fn()(vv.term))
+
+
+@specfunc("g_ok")
+def g_ok(ex, st, garg):
+    """G_eq: the grammar's distance table satisfies the local equations the synthesis relies on -- base types 0,
+    a concrete production 1 + the maximum over its field types (1 when it has no fields), an abstract type the
+    minimum over its productions (attained), every field type / production registered.  Established by
+    extract_grammar (checked on real grammars by the bounded C05 driver); assumed here (assume-guarantee)."""
+    T, B = _T().sort(), z3.BoolSort()
+    ok = z3.Function("g_ok", I, B)
+    if ("axiom", "g_ok") not in ex.__dict__.setdefault("_axiom_keys", set()):
+        ex._axiom_keys.add(("axiom", "g_ok"))
+        f = _gdist_fn(ex, st)
+        d = z3.Function("gdist_defined", I, T, B)
+        H0 = ex.H.base
+        ex.H.fld_arr(st, "alternatives", I), ex.H.map_arr(st, T, I), ex.H.dom_arr(st, T), ex.H.len_arr(st), ex.H.el_arr(st, T)
+        ex.H.fld_arr(st, "all_nodes", I)
+        alts = lambda gg, a: H0[ex.H.n_map(T, I)][H0[ex.H.n_fld("alternatives", I)][gg]][a]
+        has = lambda gg, a: H0[ex.H.n_dom(T)][H0[ex.H.n_fld("alternatives", I)][gg]][a]
+        member = z3.Function("pure_TypeSet___contains__", I, T, B)
+        nodes = lambda gg: H0[ex.H.n_fld("all_nodes", I)][gg]
+        L0, E0 = H0["len"], H0[ex.H.n_el(T)]
+        args = _pure("get_arguments", T, I)  # list of (name, type) pairs
+        from pyvc.kinds import Tup, Opaque
+
+        pair = Tup([Opaque("Str"), Opaque("Type")])
+        EP = ex.H.el_arr(st, pair.sort())
+        EP0 = H0[ex.H.n_el(pair.sort())]
+        fty = lambda c, k: pair.accs()[1](EP0[args(c)][k])
+        g, a, c = z3.Int("go_g"), z3.Const("go_a", T), z3.Const("go_c", T)
+        k = z3.Int("go_k")
+        wmin = z3.Function("g_ok_argmin", I, T, I)
+        wmax = z3.Function("g_ok_argmax", I, T, I)
+        ann, lst, uni, gen = (_pure(n, T, B) for n in ("is_annotated", "is_generic_list", "is_union", "is_generic"))
+        leaf = lambda t: z3.And(z3.Not(ann(t)), z3.Not(lst(t)), z3.Not(uni(t)), z3.Not(gen(t)))
+        tint = ex.as_type(V(FN, _fr("builtin", "int"))).term
+        tfloat = ex.as_type(V(FN, _fr("builtin", "float"))).term
+        tbool = ex.as_type(V(FN, _fr("builtin", "bool"))).term
+        ax = ex.axioms
+        for t0 in (tint, tfloat, tbool):
+            ax.append(z3.ForAll([g], z3.Implies(ok(g), z3.And(f(g, t0) == 0, d(g, t0), leaf(t0))), patterns=[ok(g)]))
+        # abstract types: every production registered, distance = minimum over the productions (attained), ed = 0 handled by caller
+        isabs = lambda gg, t: z3.And(leaf(t), has(gg, t))
+        ax.append(z3.ForAll([g, a, k], z3.Implies(z3.And(ok(g), isabs(g, a), 0 <= k, k < L0[alts(g, a)]),
+                                                  z3.And(d(g, E0[alts(g, a)][k]), f(g, a) <= _edg(ex, g) + f(g, E0[alts(g, a)][k]), member(nodes(g), E0[alts(g, a)][k]), leaf(E0[alts(g, a)][k]))),
+                            patterns=[z3.MultiPattern(ok(g), E0[alts(g, a)][k])]))
+        ax.append(z3.ForAll([g, a], z3.Implies(z3.And(ok(g), isabs(g, a), f(g, a) < 1000000),
+                                               z3.And(0 <= wmin(g, a), wmin(g, a) < L0[alts(g, a)], f(g, a) == _edg(ex, g) + f(g, E0[alts(g, a)][wmin(g, a)]))),
+                            patterns=[z3.MultiPattern(ok(g), alts(g, a))]))
+        ax.append(z3.ForAll([g, a], z3.Implies(z3.And(ok(g), has(g, a)), z3.And(alts(g, a) >= 1, alts(g, a) < ex.top0)), patterns=[z3.MultiPattern(ok(g), alts(g, a))]))
+        # distances are non-negative (table entries are 0 for base types and 1 + ... otherwise)
+        fga = f(g, a)
+        ex._pinned = getattr(ex, "_pinned", []) + [fga]
+        ax.append(z3.ForAll([g, a], z3.Implies(ok(g), fga >= 0), patterns=[z3.MultiPattern(ok(g), fga)]))
+        # registered nodes are classes, never typing wrappers (register_type adds a type only after the
+        # is_generic_list / is_annotated / is_generic tests failed)
+        mem_a = member(nodes(g), a)
+        ex._pinned = getattr(ex, "_pinned", []) + [mem_a]
+        ax.append(z3.ForAll([g, a], z3.Implies(z3.And(ok(g), mem_a), leaf(a)), patterns=[z3.MultiPattern(ok(g), mem_a)]))
+        isconc = lambda gg, t: z3.And(leaf(t), z3.Not(has(gg, t)), member(nodes(gg), t), t != tint, t != tfloat, t != tbool)
+        ax.append(z3.ForAll([g, c, k], z3.Implies(z3.And(ok(g), isconc(g, c), 0 <= k, k < L0[args(c)]),
+                                                  z3.And(d(g, fty(c, k)), f(g, c) >= 1 + f(g, fty(c, k)))),
+                            patterns=[z3.MultiPattern(ok(g), EP0[args(c)][k])]))
+        ax.append(z3.ForAll([g, c], z3.Implies(z3.And(ok(g), isconc(g, c)), z3.And(f(g, c) >= 1, args(c) >= 1, args(c) < ex.top0, L0[args(c)] >= 0)), patterns=[z3.MultiPattern(ok(g), args(c))]))
+    return V(BOOL, ok(garg.term))
+
+
+def _edg(ex, g):
+    B = z3.BoolSort()
+    H0 = ex.H.base
+    return z3.If(H0[ex.H.n_fld("expansion_depthing", B)][g], 1, 0)
